@@ -8,7 +8,7 @@ CLAIMED = {
  "C11": ("theorems C11_process_agrees_with_decode, C11_buffer_untouched_unless_request, C11_process_by_cases (process_packet by cases on decode_packet), C11_oracle_holds_on_model; correspondence: decode then process of the same bytes incl. trailing / truncated variants, poisoned response buffers", "§6 C11"),
  "C12": ("theorems C12_oracle_holds_on_model (every response to an accepted answerable request is a spec_packet travelling back to the requester: framing, byte count, transport header, PEC, Rq/D/rsvd clear, same command code, completion code; instance ID as recorded known finding 1201), C12_answerable_requests_are_answered and C12_process_is_dispatch (process_packet = dispatch on the decoded request), C12_own_answers_go_through_the_own_decoder, C12_conversation_* (library encoder on the requester -> process_packet on the responder -> decode_packet on the requester, one theorem per command, the answer addressed back to the requester); correspondence over requester x instance x command grids, whole conversations through the library's own encoders and decoder, and after random histories", "§6 C12"),
  "C13": ("theorems C13_oracle_holds_on_model (induction over all histories: both EIDs change exactly at an accepted Set/Force assignment or an accessor call, and are reported by Get/Set EID responses), C13_eids_after_process, C13_only_assignment_changes_eid, C13_eid_is_last_assigned, and the refinement C13_responder_state_is_the_abstract_endpoint / C13_responder_answers_as_the_abstract_endpoint (every history of the model is a history of a three-field abstract endpoint: two EID cells and the UUID); correspondence on random histories of up to 40 operations with both get_eid() values observed after every step", "§6 C13"),
- "C14": ("theorems C14_oracle_holds_on_model and C14_walk (response to selector i < n = next selector i+1 or 0xFF and the i-th configured set in its own format, independent of the stored selector, in both overflow modes); correspondence: n = 1..16, every selector order for n <= 4, the requester's walk performed by the harness", "§6 C14"),
+ "C14": ("theorems C14_oracle_holds_on_model and C14_walk (response to selector i < n = next selector i+1 or 0xFF and the i-th configured set in its own format, independent of the stored selector, in both overflow modes), C14_enumerate / C14_enumerate_any_fuel (the requester's walk returns every configured set once, in order, and stops on 0xFF), C14_enumerate_through_the_api (the same with the library's own encoder and decoder on the requester side); correspondence: n = 1..16 (and 0, 255, 256, 257, 512), every selector order for n <= 4, the requester's walk performed by the harness with independent and with library-encoded requests", "§6 C14"),
  "C15": ("theorems C15_oracle_holds_on_model, C15_message_types, C15_uuid, C15_version (identity answers for every configuration, UUID history and interleaved traffic); correspondence on lists of every length 0..30 and UUID update sequences", "§6 C15"),
  "C18": ("theorems C18_getter_layout / C18_setter_layout (every one of the 29 declared fields reads / writes exactly the documented bit positions, for every raw buffer and every value, the 16/32-bit fields by induction over the chunked bit loop), read-after-write = value truncated to the width, every other field of the struct preserved, the two validators as boolean closed forms, C18_getter_any_buffer / C18_setter_any_buffer (views over buffers longer than the struct read / rewrite the struct-sized prefix only), and the oracle over all histories; correspondence: exhaustive raw values for 1-byte and 2-byte views, patterns + random for wider ones, all written values, views over Vec buffers of every length 0 .. struct + 252", "§6 C18"),
  "C09": ("theorems C09_decoder_exact (decode_packet = spec_decode, a flat decision procedure on the bytes, for every byte string outside the panic classes), C09_decoder_panics_iff (exact characterisation of the panic classes), C09_accept_iff_wellformed (accept <-> wf_packet, the property's own well-formedness predicate) and C09_oracle_holds_on_model (payload range, truthful errors); context independence: the model's decoder has no context argument, the correspondence decodes every case on a second context with another address/configuration/history", "§6 C09"),
